@@ -412,7 +412,11 @@ func (mr *memRepo) blobDelete(d digest.Digest, locked bool) error {
 		mr.mu.Lock()
 		defer mr.mu.Unlock()
 	}
-	_, ok := mr.blobs[d]
+	b, ok := mr.blobs[d]
+	if ok && b == nil {
+		// explicitly deleted before, or looked up and not found in the backing directory
+		return types.ErrNotFound
+	}
 	if ok {
 		if mr.path != "" {
 			mr.blobs[d] = nil
